@@ -46,9 +46,13 @@ type fixedReader struct {
 	steps []Event
 	pos   int
 	fill  *rng
+	delay time.Duration // every Read of the current call takes this long
 }
 
 func (f *fixedReader) Read(p []byte) (int, error) {
+	if f.delay > 0 {
+		time.Sleep(f.delay)
+	}
 	if f.pos >= len(f.steps) {
 		b := f.fill.bytes(len(p))
 		copy(p, b)
@@ -60,6 +64,7 @@ func (f *fixedReader) Read(p []byte) (int, error) {
 	if g, _ := st["gc"].(bool); g && f.pos > 1 {
 		settle()
 	}
+
 	b := toBytes(intsOf(st["bytes"]))
 	if len(b) > len(p) {
 		b = b[:len(p)]
@@ -197,7 +202,8 @@ func replayFile(path string) {
 			al, _ := e["alias_checked"].(bool)
 			stop, times := func() {}, 1
 			if c, _ := e["cls"].(string); c == "bigtext" { // recorded under a busy collector: re-executed under one, several times
-				stop, times = gcStorm(), 6
+				s1, s2, s3 := gcStorm(), gcStorm(), gcStorm()
+				stop, times = func() { s1(); s2(); s3() }, 12
 			}
 			for t := 0; t < times; t++ {
 				recToSeed(fromUnits(intsOf(e["m"])), fromUnits(intsOf(e["p"])), al, keep)
@@ -227,8 +233,24 @@ func replayFile(path string) {
 					break
 				}
 			}
+			// reads that were logged only after the call had returned (the library had given up waiting for a slow
+			// source and the read completed later) belong to this call's script as well
+			for k := j; k < len(u); k++ {
+				if o, _ := u[k]["op"].(string); o == "NewMnemonic" || o == "NewMnemonicAborted" {
+					for k++; k < len(u); k++ {
+						if o2, _ := u[k]["op"].(string); o2 != "Read" {
+							break
+						}
+						steps = append(steps, u[k])
+					}
+					break
+				} else if o != "Read" {
+					break
+				}
+			}
 			if src, ok := currentSourceIsInjected(); ok {
 				src.steps, src.pos = steps, 0
+				src.delay = time.Duration(num(e["src_delay_ms"])) * time.Millisecond
 			}
 			recNewMnemonic(bigOf(e["n"]), num(e["lang"]), keep)
 			for j < len(u) { // skip the recorded return
@@ -240,9 +262,23 @@ func replayFile(path string) {
 			i = j
 		case "Sweep":
 			recSweep(intsOf(e["prefix"]), int(num(e["lang"])))
+		case "Probe":
+			if v := num(e["variant"]); v == 0 {
+				if i == 0 || !(u[i-1]["op"] == "Probe" && num(u[i-1]["lang"]) == num(e["lang"])) { // once per language
+					probeNewMethods(num(e["lang"]))
+				}
+			}
 		case "MapLens":
 			mapLens()
 		case "Cut":
+			if a := num(e["age_ms"]); a > 1000 {
+				ageAtLeast(time.Duration(a) * time.Millisecond)
+			}
+			if i > 0 { // unit boundaries are kept (a long re-execution is validated in shards, too)
+				src, _ := e["source"].(string)
+				emit(Event{"op": "Cut", "source": src})
+				lastCut = nEvents
+			}
 			if kind, _ := e["source"].(string); kind == "seekable" {
 				if curSource != "seekable" {
 					swapSource(&seekSource{scriptReader: &scriptReader{fill: newRng(1, "replay")}}, kind)
@@ -311,6 +347,8 @@ func runProgram(p program, seed int64) {
 		switch st.Op {
 		case "cut":
 			maybeCutNow()
+		case "age": // idle until the process is at least this old
+			ageAtLeast(time.Duration(st.DelayMs) * time.Millisecond)
 		case "swap":
 			if st.Kind == "os" {
 				progSrc = nil
@@ -326,6 +364,7 @@ func runProgram(p program, seed int64) {
 					progSrc.after = "data"
 				}
 				progSrc.delay = time.Duration(st.DelayMs) * time.Millisecond
+				srcDelayMs = st.DelayMs
 				progSrc.gc, progSrc.gave = st.GC, 0
 				if st.Fill >= 100 {
 					// a repeated stream: every call with this fill number is handed exactly the same bytes (a test
